@@ -49,13 +49,22 @@ func eqInts(a, b []int) bool {
 
 // plainReader hides every optional interface of the underlying reader (no ByteReader, no WriterTo).
 type plainReader struct {
-	r io.Reader
-	n int
+	r     io.Reader
+	n     int
+	calls int
 }
 
-// Read hides ReadByte of the underlying reader. For half of the streams (by the parity of their length) the last
+// what one Read call hands out at most, in turn (a pipe, a socket or a decompressor delivers what it has: a fixed-size
+// field may arrive in pieces with no error)
+var plainChunks = []int{1, 5, 2, 8, 3, 13, 64, 7}
+
+// Read hides ReadByte of the underlying reader and delivers short reads (at most plainChunks[i] bytes per call). For half of the streams (by the parity of their length) the last
 // bytes are delivered together with io.EOF, as io.Reader allows and flate / iotest.DataErrReader do.
 func (p *plainReader) Read(b []byte) (int, error) {
+	if k := plainChunks[p.calls%len(plainChunks)]; len(b) > k {
+		b = b[:k]
+	}
+	p.calls++
 	n, err := p.r.Read(b)
 	p.n += n
 	if l, ok := p.r.(interface{ Len() int }); ok && err == nil && n > 0 && l.Len() == 0 && p.n%2 == 0 {
